@@ -523,6 +523,13 @@ func v01DrawCase(rt *rapid.T) *v01Case {
 		c.Rounds[g.Round] = append(c.Rounds[g.Round], &v01Op{Round: g.Round, Conn: ci, Kind: v01KAuthBad, pairOf: g})
 		c.Rounds[g.Round+1] = append(c.Rounds[g.Round+1], &v01Op{Round: g.Round + 1, Conn: ci, Kind: v01KTCPReq})
 	}
+	c.fillDetails(rt, nr)
+	return c
+}
+
+// fillDetails numbers the ops and draws everything below the level of "which op on which
+// connection in which round": tokens, holds, framings, datagram modes, the twin shape.
+func (c *v01Case) fillDetails(rt *rapid.T, nr int) {
 	c.AcceptRnd = make([]int, c.NConn)
 	c.ParkClose = make([]int, c.NConn)
 	for i := range c.AcceptRnd {
@@ -758,6 +765,77 @@ func v01DrawCase(rt *rapid.T) *v01Case {
 			}
 		}
 	}
+}
+
+// v01DrawLongAuthCase: ONE connection that receives a long run (6-20) of auth requests -
+// rejected ones, the accepted one, repeated accepted, repeated with wrong credentials,
+// near-misses with garbage headers - with TCP requests / UDP messages interleaved and at
+// the end. Rounds are short (1-2 ops), so the history is essentially sequential.
+func v01DrawLongAuthCase(rt *rapid.T) *v01Case {
+	c := &v01Case{Mode: "long-auth-history"}
+	c.Seed = int64(rapid.Uint32().Draw(rt, "seed"))
+	ntok := rapid.IntRange(1, 3).Draw(rt, "ntok")
+	off := rapid.IntRange(0, len(v01TokenPool)-1).Draw(rt, "tokoff")
+	for i := 0; i < ntok; i++ {
+		c.GoodTokens = append(c.GoodTokens, v01TokenPool[(off+i)%len(v01TokenPool)])
+	}
+	c.UseTL = rapid.IntRange(0, 3).Draw(rt, "tl") == 0
+	c.RevokeAt = map[string]int{}
+	nAuth := rapid.IntRange(6, 20).Draw(rt, "nauth")
+	preBad := rapid.SampledFrom([]int{0, 0, 1, 2, 2, 3, 4, 4, 5, 7}).Draw(rt, "prebad") // rejected attempts before the accepted one
+	if preBad > nAuth-1 {
+		preBad = nAuth - 1
+	}
+	var rounds [][]*v01Op
+	add := func(ops ...*v01Op) {
+		r := len(rounds)
+		for _, o := range ops {
+			o.Round = r
+		}
+		rounds = append(rounds, ops)
+	}
+	proxy := func(name string) *v01Op {
+		if rapid.IntRange(0, 2).Draw(rt, name+"/kind") == 0 {
+			return &v01Op{Kind: v01KDatagram}
+		}
+		return &v01Op{Kind: v01KTCPReq}
+	}
+	for i := 0; i < nAuth; i++ {
+		name := fmt.Sprintf("a%d", i)
+		var a *v01Op
+		switch {
+		case i < preBad:
+			a = &v01Op{Kind: v01KAuthBad}
+		case i == preBad:
+			a = &v01Op{Kind: v01KAuthGood}
+		default:
+			switch rapid.IntRange(0, 5).Draw(rt, name+"/kind") {
+			case 0, 1:
+				a = &v01Op{Kind: v01KAuthGood} // repeated, accepted credentials
+			case 2:
+				a = &v01Op{Kind: v01KOtherHTTP} // near-miss with garbage headers
+			default:
+				a = &v01Op{Kind: v01KAuthBad} // repeated, wrong credentials
+			}
+		}
+		ops := []*v01Op{a}
+		if rapid.IntRange(0, 4).Draw(rt, name+"/with") == 0 {
+			ops = append(ops, proxy(name+"/p")) // concurrent with the auth request
+		}
+		add(ops...)
+		if rapid.IntRange(0, 2).Draw(rt, name+"/then") == 0 {
+			add(proxy(name + "/q"))
+		}
+	}
+	add(&v01Op{Kind: v01KTCPReq})
+	add(&v01Op{Kind: v01KTCPReq}, &v01Op{Kind: v01KDatagram})
+	nr := len(rounds)
+	c.Rounds = rounds
+	c.Conns = []v01ConnPlan{{Open: 0, Close: nr, Accept: true}}
+	c.NConn = 1
+	c.DenyConn = []bool{false}
+	c.Accept = []bool{true}
+	c.fillDetails(rt, nr)
 	return c
 }
 
@@ -813,6 +891,8 @@ type v01Run struct {
 	roundOpened []chan struct{}          // closed when the connections of that round are open
 	detached    [][]chan struct{}        // per connection: completion of ops the rounds did not wait for
 	softMissing int                      // Disconnect / late verdict not seen within the soft bound
+	remoteClose []*quic.ApplicationError // the SERVER closed the connection (captured before the harness closes it)
+	excluded    int                      // ops on a never-authenticated connection the server had closed
 	boundary    atomic.Int32             // current round: the authenticator's verdict table depends on it
 }
 
@@ -943,6 +1023,7 @@ func v01Execute(c *v01Case) (_ *v01Run, envErr string) {
 	run.clients = make([]*v01Client, c.NConn)
 	run.barrier = make([]v01HTTPResp, c.NConn)
 	run.dgramsN = make([]int, c.NConn)
+	run.remoteClose = make([]*quic.ApplicationError, c.NConn)
 	teardown := func() {
 		// release everything that may still be parked
 		for _, ch := range run.connClosed {
@@ -1070,6 +1151,12 @@ func (run *v01Run) finish(conns []int, more bool) (envErr string) {
 		}
 	}
 	for _, i := range conns {
+		if cl := run.clients[i]; cl.dead() {
+			var ae *quic.ApplicationError
+			if errors.As(cl.deathCause(), &ae) && ae.Remote {
+				run.remoteClose[i] = ae
+			}
+		}
 		run.clients[i].Close()
 		v01CloseOnce(run.connClosed[i]) // releases a call parked across the close (after its HoldMs)
 	}
@@ -1293,9 +1380,26 @@ func (run *v01Run) judge() (violation string, inconclusive string) {
 			killer[o.Conn] = o.Round
 		}
 	}
+	// A server may close a connection that never authenticated (C01 does not forbid it): the
+	// connection is dead in the model from then on and the failures of its remaining ops say
+	// nothing. Closing a connection AFTER its 233 was received is revocation of access.
+	got233 := make([]bool, c.NConn)
+	for _, res := range run.res {
+		if res.Err == nil && res.HTTP.Status == v01StatusHyOK && (res.Op.Kind == v01KAuthGood || res.Op.Kind == v01KAuthBad) {
+			got233[res.Op.Conn] = true
+		}
+	}
+	closedUnauth := make([]bool, c.NConn)
+	for i, ae := range run.remoteClose {
+		closedUnauth[i] = ae != nil && !got233[i]
+	}
 	var inc string
 	for _, res := range run.res {
 		o := res.Op
+		if closedUnauth[o.Conn] && res.Err != nil {
+			run.excluded++
+			continue
+		}
 		// detached ops belong to a connection that was closed while an auth call was parked: an error is the expected end
 		tolerated := (!c.Accept[o.Conn] && o.Round >= killer[o.Conn]) || o.Detached
 		switch o.Kind {
@@ -1373,7 +1477,21 @@ func (run *v01Run) judge() (violation string, inconclusive string) {
 			}
 		}
 	}
+	for i, ae := range run.remoteClose {
+		if ae != nil && got233[i] && okConn[i] && ae.ErrorCode != 0x105 {
+			n := 0
+			for _, res := range run.res {
+				if res.Op.Conn == i && (res.Op.Kind == v01KAuthGood || res.Op.Kind == v01KAuthBad) {
+					n++
+				}
+			}
+			return fmt.Sprintf("O2: the server closed connection c%d (application error 0x%x) although it had been accepted (233 received) and the harness had not closed it: access revoked after %d auth requests on it", i, uint64(ae.ErrorCode), n), ""
+		}
+	}
 	for i := range run.clients {
+		if closedUnauth[i] {
+			continue
+		}
 		if !c.Accept[i] && run.dgramsN[i] > 0 {
 			return fmt.Sprintf("O4: connection c%d never authenticated but received %d datagram(s) from the server", i, run.dgramsN[i]), ""
 		}
@@ -1588,6 +1706,25 @@ func (c *v01Case) classify() (nt bool, classes []string) {
 	if lateAcceptThenBad {
 		set["accept-verdict-after-close+later-conn-authbad"] = true
 	}
+	for i := 0; i < c.NConn; i++ {
+		if !c.Accept[i] {
+			continue
+		}
+		n := 0
+		for _, ops := range c.Rounds {
+			for _, o := range ops {
+				if o.Conn == i && (o.Kind == v01KAuthGood || o.Kind == v01KAuthBad) {
+					n++
+				}
+			}
+		}
+		if n-1 >= 5 {
+			set["non-accepted-auth-attempts>=5-on-accepted-conn"] = true
+		}
+		if n >= 10 {
+			set["auth-requests>=10-on-one-conn"] = true
+		}
+	}
 	set["mode="+c.Mode] = true
 	if c.Mode == "generations" {
 		set[fmt.Sprintf("generations=%d", len(gens))] = true
@@ -1602,7 +1739,8 @@ func (c *v01Case) classify() (nt bool, classes []string) {
 	nt = (accProxy && neverProxy) || reauthThenProxy || preProxy || (neverProxy && set["held-authenticator"]) ||
 		set["conn-after-closed-accepted:never-accepted+proxy"] || set["conn-after-closed-accepted:never-accepted+authbad"] ||
 		set["conn-after-closed-accepted:authbad-before-own-accept"] || set["concurrent-auths-ordered"] || set["hold=past-close"] ||
-		set["verbatim-reuse:on-never-accepted-conn"] || set["verbatim-reuse:rejected-after-revoke"] || set["twin-in-flight"]
+		set["verbatim-reuse:on-never-accepted-conn"] || set["verbatim-reuse:rejected-after-revoke"] || set["twin-in-flight"] ||
+		set["non-accepted-auth-attempts>=5-on-accepted-conn"]
 	_ = afterClosedAccepted
 	for k := range set {
 		classes = append(classes, k)
@@ -1613,50 +1751,72 @@ func (c *v01Case) classify() (nt bool, classes []string) {
 
 // ---------------------------------------------------------------- test
 
+type v01Counters struct{ relayed, softMissing, reruns int64 }
+
+// v01CheckCase runs one generated history (re-running it on environment trouble) and judges it.
+func v01CheckCase(rt *rapid.T, st *vStats, c *v01Case, cnt *v01Counters) {
+	nt, classes := c.classify()
+	st.Case(nt, c.fingerprint(), classes, c.render)
+	// Environment trouble (handshake/request timeout under load, a stateless reset after
+	// lost packets) says nothing about the property: the same history is run again on a
+	// fresh server, at most three times, before the process gives up as inconclusive.
+	var inc string
+	for attempt := 0; attempt < 3; attempt++ {
+		rand.Seed(c.Seed)
+		run, envErr := v01Execute(c)
+		if envErr != "" {
+			inc = envErr
+			cnt.reruns++
+			continue
+		}
+		for _, res := range run.res {
+			if res.Op.Kind == v01KDatagram && res.Post && res.Op.DMode != 1 && res.Err == nil {
+				if res.Relayed {
+					cnt.relayed++
+				} else {
+					cnt.softMissing++
+				}
+			}
+		}
+		var v string
+		v, inc = run.judge()
+		for k := 0; k < run.excluded; k++ {
+			st.Excluded("op on a never-authenticated connection that the server had closed")
+		}
+		if v != "" {
+			rt.Fatalf("C01: %s\nhistory: %s\nlog:%s", v, c.render(), v01RenderLog(run.env.log.snapshot(), 60))
+		}
+		if inc == "" {
+			break
+		}
+		cnt.reruns++
+	}
+	st.Extra("post_accept_datagrams_relayed", cnt.relayed)
+	st.Extra("post_accept_datagrams_not_seen_within_1.5s", cnt.softMissing)
+	st.Extra("histories_rerun_after_environment_trouble", cnt.reruns)
+	if inc != "" {
+		vInconclusive("C01: " + inc + " | history: " + strings.ReplaceAll(c.render(), "\n", " "))
+	}
+}
+
 func TestVerifC01_AuthGate(t *testing.T) {
 	st := newVStats("TestVerifC01_AuthGate")
 	defer st.Flush()
-	var relayed, softMissing, reruns int64
+	cnt := &v01Counters{}
 	rapid.Check(t, func(rt *rapid.T) {
-		c := v01DrawCase(rt)
-		nt, classes := c.classify()
-		st.Case(nt, c.fingerprint(), classes, c.render)
-		// Environment trouble (handshake/request timeout under load, a stateless reset after
-		// lost packets) says nothing about the property: the same history is run again on a
-		// fresh server, at most three times, before the process gives up as inconclusive.
-		var inc string
-		for attempt := 0; attempt < 3; attempt++ {
-			rand.Seed(c.Seed)
-			run, envErr := v01Execute(c)
-			if envErr != "" {
-				inc = envErr
-				reruns++
-				continue
-			}
-			for _, res := range run.res {
-				if res.Op.Kind == v01KDatagram && res.Post && res.Op.DMode != 1 && res.Err == nil {
-					if res.Relayed {
-						relayed++
-					} else {
-						softMissing++
-					}
-				}
-			}
-			var v string
-			v, inc = run.judge()
-			if v != "" {
-				rt.Fatalf("C01: %s\nhistory: %s\nlog:%s", v, c.render(), v01RenderLog(run.env.log.snapshot(), 60))
-			}
-			if inc == "" {
-				break
-			}
-			reruns++
-		}
-		st.Extra("post_accept_datagrams_relayed", relayed)
-		st.Extra("post_accept_datagrams_not_seen_within_1.5s", softMissing)
-		st.Extra("histories_rerun_after_environment_trouble", reruns)
-		if inc != "" {
-			vInconclusive("C01: " + inc + " | history: " + strings.ReplaceAll(c.render(), "\n", " "))
-		}
+		v01CheckCase(rt, st, v01DrawCase(rt), cnt)
+	})
+}
+
+// TestVerifC01_LongAuthHistory: one connection, a long run of auth requests (rejected,
+// accepted, repeated, repeated with wrong credentials, near-misses) with proxy operations
+// interleaved and at the end. Same oracles: nothing is dialled or relayed before the first
+// acceptance; after it every TCP request is served, whatever else was attempted since.
+func TestVerifC01_LongAuthHistory(t *testing.T) {
+	st := newVStats("TestVerifC01_LongAuthHistory")
+	defer st.Flush()
+	cnt := &v01Counters{}
+	rapid.Check(t, func(rt *rapid.T) {
+		v01CheckCase(rt, st, v01DrawLongAuthCase(rt), cnt)
 	})
 }
